@@ -12,6 +12,8 @@ CONSTANTS
   MaxRestarts = 2
   QKinds = {"state", "call"}
   ResetKvs = FALSE
+  MaxCrashes = 1
+  TrimFloor = 0
   HdrRebuilt = TRUE
 VIEW view
 INVARIANTS TypeOK PersistentIsFunctionOfChain
